@@ -133,10 +133,11 @@ pub fn rt_name(cx: &mut Ctx, rng: &mut Rng) {
         _ => rng.small(60),
     };
     // keep the string offset within u16: 6 + 12 n (+ 2 + 4 m) <= 65535
+    // (storage beyond 64K is out of reach of the 16-bit record offsets: see overflow_name)
     let storage_len = match rng.below(40) {
         0 => 65535,
-        1 => 65536,
-        2 => 200_000,
+        1 => 65534,
+        2 => 40_000,
         3 => 0,
         _ => rng.small(3000),
     };
